@@ -44,7 +44,11 @@ def consume_c04(ctx, lines, results):
                 # the frame on top when the limit is hit, and the position of the runaway schema, are accidental:
                 # one signature per operation for "the recursion does not end"
                 sjson = json.dumps(case.get("s") or {})
-                sig.update(divergence="stack_overflow", frame="", arg_class="any",
+                det = res.get("detail", "")
+                cyc = ("applySubObjectDefaultValues" if "applySubObjectDefaultValues" in det else
+                       "unserializeInlinedDataToMap" if "unserializeInlinedDataToMap" in det else
+                       "convertData" if "convertData" in det else "")
+                sig.update(divergence="stack_overflow", frame=cyc, arg_class="any",
                            kind_at_fault="scope" if '"kind": "scope"' in sjson or '"kind":"scope"' in sjson else sig["kind_at_fault"])
             ctx.violation(sig, dict(case=case, crash=res["crash"], stderr=res.get("detail", "")[:4000], statement=STATEMENT))
             continue
